@@ -92,6 +92,15 @@ def handle (j : Json) : Except String Json := do
     let files ← (← getArr j "files").toList.mapM (·.getStr?)
     pure (Json.mkObj [("frames", Json.arr (files.map (fun f =>
       jFrame (some (isAppFrame incl excl root f)) (some (parseShortName (isAppFrame incl excl root) f)))).toArray)])
+  | "ga" =>
+    -- the translated `__getattribute__` itself, on an object whose `self.__custom` may be `None`
+    let env ← (← pPairs j "env").mapM (fun (k, v) => do pure (k, ← v.getStr?))
+    let px ← getStr j "px"
+    let custom ← match j.getObjVal? "custom" with
+      | .ok .null => pure none
+      | _ => do pure (some (← (← pPairs j "custom").mapM (fun (k, v) => do pure (k, ← pCVal v))))
+    let names ← (← getArr j "names").toList.mapM (·.getStr?)
+    pure (Json.mkObj [("values", Json.arr (names.map (fun n => jCVal (getAttribute custom env px n))).toArray)])
   | "interval" =>
     let w ← pWorld j
     let v := w.get "POLL_TIMER"
